@@ -86,7 +86,7 @@ def mentions_object(x):
     if isinstance(x, dict):
         if "$ref" in x or "properties" in x or x.get("type") == "object":
             return True
-        return any(mentions_object(v) for k, v in x.items() if k not in ("enum", "default"))
+        return any(mentions_object(v) for k, v in x.items() if k not in ("enum", "default", "properties"))
     return False
 
 
